@@ -449,6 +449,69 @@ def kepimp_form_case():
                      "along r x v of the state's cartesian position and velocity")
 
 
+def man_form_case(frame, kind):
+    """ImpulsiveMan.dv / ContinuousMan.accel in QSW/TNW axes for an orbit stored in *spherical* form: the axes are those of the
+    state's cartesian position and velocity, whatever the six numbers the state is stored as"""
+    k0 = kepimp_form_case()
+    ins = [i for i in k0.inputs if i[0] not in ("dt", "dw")] + [("d1", "real"), ("d2", "real"), ("d3", "real")]
+
+    def cart(env, v):
+        r, th, ph, rd, thd, phd = (v[k] for k in ("r", "th", "ph", "rd", "thd", "phd"))
+        ct, st, cp, sp = env.cos(th), env.sin(th), env.cos(ph), env.sin(ph)
+        pos = [r * cp * ct, r * cp * st, r * sp]
+        vel = [rd * cp * ct - r * sp * ct * phd - r * cp * st * thd, rd * cp * st - r * sp * st * phd + r * cp * ct * thd,
+               rd * sp + r * cp * phd]
+        return pos + vel
+
+    def run(env, v):
+        man = env.mod("beyond.orbits.man") if env.symbolic else __import__("importlib").import_module("beyond.orbits.man")
+        el = [v[k] for k in ("r", "th", "ph", "rd", "thd", "phd")]
+        d = [v["d1"], v["d2"], v["d3"]]
+        if env.symbolic:
+            from symx.stubs import carrier
+            env.mod("beyond.frames.local")
+            env.mod("beyond.utils.matrix")
+            env.mod("beyond.orbits.forms")
+            man.log = _NoLog()
+            forms = __import__("importlib").import_module("beyond.orbits.forms")
+            fr = _NS(); fr.name = "EME2000"; fr.center = _NS(); fr.center.body = _NS(); fr.center.body.mu = 1
+            o = carrier(el, date=SymDate(0), frame=fr, form=forms.SPHE)
+            if kind == "impulsive":
+                return {"dv": list(man.ImpulsiveMan(SymDate(var("tm")), d, frame=frame).dv(o))}
+            return {"dv": list(man.ContinuousMan(SymDate(var("tm")), SymTD(R.const(1)), accel=d, frame=frame).accel(o))}
+        from beyond.dates import Date
+        from beyond.orbits import StateVector
+        el = [7e6 * (1 + abs(float(v["r"])) % 3), float(v["th"]), float(v["ph"]), 1e3 * float(v["rd"]), 1e-3 * float(v["thd"]),
+              1e-3 * float(v["phd"])]
+        d = [float(x) for x in d]
+        o = StateVector(el, Date(2020, 1, 1), "spherical", "EME2000")
+        if kind == "impulsive":
+            got = np.array(man.ImpulsiveMan(o.date, d, frame=frame).dv(o), dtype=float)
+        else:
+            got = np.array(man.ContinuousMan(o.date, _td(seconds=1), accel=d, frame=frame).accel(o), dtype=float)
+        c = np.array(o.copy(form="cartesian"), dtype=float)
+        w = np.cross(c[:3], c[3:])
+        w /= np.linalg.norm(w)
+        if frame == "QSW":
+            a = c[:3] / np.linalg.norm(c[:3])
+            A = [a, np.cross(w, a), w]
+        else:
+            a = c[3:] / np.linalg.norm(c[3:])
+            A = [a, np.cross(w, a), w]
+        return {"dv": list(got - (d[0] * A[0] + d[1] * A[1] + d[2] * A[2]))}
+
+    def ref(env, v, out):
+        if not env.symbolic:
+            return {"dv": [0, 0, 0]}
+        A = axes(env, dict(zip(RV, cart(env, v))), frame)
+        d = [v["d1"], v["d2"], v["d3"]]
+        return {"dv": [sum(d[k] * A[k][j] for k in range(3)) for j in range(3)]}
+    return Case(f"man_form/{kind}/{frame}", ins, run, ref, pre=k0.pre, timeout=120, maxpaths=64, tol=1e-9, abs_tol=1e-9,
+                signature=f"{kind} maneuver builds the {frame} axes from the raw elements of a non-cartesian state",
+                desc=f"{kind} maneuver in {frame} axes on a state stored in spherical form: components along the axes of the state's "
+                     "cartesian position and velocity")
+
+
 def late_start_case(a_frac, tm_frac):
     """the real KeplerNum._iter + _make_step (Euler, free motion: zero acceleration) + the real Ephem (Lagrange order 2) for an
     iteration that starts a_frac steps after the epoch with an impulse tm_frac steps after the epoch (a_frac < tm_frac): every
@@ -529,7 +592,7 @@ def all_cases(tier):
         for kind in ("impulsive", "cont_dv", "cont_accel"):
             cs.append(man_case(fr, kind))
     cs += [window_case(p) for p in ("start", "median", "stop")]
-    cs += [tiling_case(bounds(tier)["tiles"]), makestep_case(), dkep_case(), dkep_norm_case(), kepcont_case(), kepimp_form_case(), late_start_case("1/2", "3/4"),
+    cs += [tiling_case(bounds(tier)["tiles"]), makestep_case(), dkep_case(), dkep_norm_case(), kepcont_case(), kepimp_form_case()] + [man_form_case(f, k) for f in ("QSW", "TNW") for k in ("impulsive", "cont_accel")] + [late_start_case("1/2", "3/4"),
            late_start_case("1", "3/2"), late_start_case("3/2", "7/4")]
     return cs
 
